@@ -132,7 +132,7 @@ func (s *state) walk(node ast.Node) {
 	case *ast.LogNode:
 		s.bufferName += "_"
 		s.jsln("var ", s.bufferName, " = '';")
-		s.walk(node.Body)
+		s.walkBlock(node.Body)
 		s.jsln("console.log(", s.bufferName, ");")
 		s.bufferName = s.bufferName[:len(s.bufferName)-1]
 
@@ -146,12 +146,16 @@ func (s *state) walk(node ast.Node) {
 	case *ast.CallNode:
 		s.visitCall(node)
 	case *ast.LetValueNode:
-		s.jsln("var ", s.scope.makevar(node.Name), " = ", node.Expr, ";")
+		// the value is translated before the name is bound: {let $x: $x + 1/}
+		// refers to the outer $x.
+		var value = s.block(node.Expr)
+		s.jsln("var ", s.scope.makevar(node.Name), " = ", value, ";")
 	case *ast.LetContentNode:
 		var oldBufferName = s.bufferName
-		s.bufferName = s.scope.makevar(node.Name)
+		s.bufferName = s.scope.genname(node.Name)
 		s.jsln("var ", s.bufferName, " = '';")
-		s.walk(node.Body)
+		s.walkBlock(node.Body)
+		s.scope.bind(node.Name, s.bufferName)
 		s.bufferName = oldBufferName
 
 	// Values ----------
@@ -257,6 +261,15 @@ func (s *state) visitSoyFile(node *ast.SoyFileNode) {
 	s.jsln("// Please don't edit this file by hand.")
 	s.jsln("")
 	s.visitChildren(node)
+}
+
+// walkBlock translates the body of a block command in a variable scope of its
+// own, so that a {let} inside it is visible (and shadows outer names) only
+// until the end of the block, as in the Go backend.
+func (s *state) walkBlock(node ast.Node) {
+	s.scope.push()
+	s.walk(node)
+	s.scope.pop()
 }
 
 func (s *state) visitChildren(parent ast.ParentNode) {
@@ -446,9 +459,9 @@ func (s *state) visitCall(node *ast.CallNode) {
 				dataExpr += param.Key + ": " + s.block(param.Value)
 			case *ast.CallParamContentNode:
 				var oldBufferName = s.bufferName
-				s.bufferName = s.scope.makevar("param")
+				s.bufferName = s.scope.genname("param")
 				s.jsln("var ", s.bufferName, " = '';")
-				s.walk(param.Content)
+				s.walkBlock(param.Content)
 				dataExpr += param.Key + ": " + s.bufferName
 				s.bufferName = oldBufferName
 			}
@@ -473,7 +486,7 @@ func (s *state) visitIf(node *ast.IfNode) {
 		}
 		s.js("{\n")
 		s.indentLevels++
-		s.walk(branch.Body)
+		s.walkBlock(branch.Body)
 		s.indentLevels--
 		s.indent()
 		s.js("}")
@@ -542,7 +555,7 @@ func (s *state) visitForeach(node *ast.ForNode) {
 		s.indentLevels--
 		s.jsln("} else {")
 		s.indentLevels++
-		s.walk(node.IfEmpty)
+		s.walkBlock(node.IfEmpty)
 		s.indentLevels--
 		s.jsln("}")
 	}
@@ -559,7 +572,7 @@ func (s *state) visitSwitch(node *ast.SwitchNode) {
 			s.jsln("default:")
 		}
 		s.indentLevels++
-		s.walk(switchCase.Body)
+		s.walkBlock(switchCase.Body)
 		s.jsln("break;")
 		s.indentLevels--
 	}
@@ -568,6 +581,10 @@ func (s *state) visitSwitch(node *ast.SwitchNode) {
 }
 
 func (s *state) visitMsg(node *ast.MsgNode) {
+	// the message body is a block: a {let} inside it is not visible after it.
+	s.scope.push()
+	defer s.scope.pop()
+
 	// If no bundle was provided, walk the message sub-nodes.
 	if s.options.Messages == nil {
 		s.visitMsgNode(node)
